@@ -58,6 +58,7 @@ def raw_traces(ctx, name, programs):
     t0 = time.time()
     triples = [(k, [], lines) for k, lines in enumerate(programs)]
     traces, extras = asmrun.run(triples)
+    programs = programs[:len(traces)]
     for t in traces:
         t["focus"] = 0
         if t["outcome"] == "stmtcount":
@@ -85,23 +86,33 @@ def cli_clause(ctx, rnd, programs):
     t0 = time.time()
     d = tempfile.mkdtemp(prefix="c13cli", dir=os.path.join(tlc.OUT))
     n = 0
+    from concurrent.futures import ThreadPoolExecutor
+
+    def run_cmd(cmd):
+        try:
+            p = subprocess.run(cmd, stdout=subprocess.PIPE, stderr=subprocess.PIPE, timeout=10, cwd=d)
+            return p.returncode, p.stderr.decode("utf-8", "replace"), p.stdout.decode("utf-8", "replace")
+        except subprocess.TimeoutExpired:
+            return -9, "TIMEOUT", ""
     try:
+        cmds = []
         for k, lines in enumerate(programs):
             src = os.path.join(d, "p%d.asm" % k)
             open(src, "w").write("".join(lines))
             outs = {"bin": os.path.join(d, "o%d.bin" % k), "cas": os.path.join(d, "o%d.cas" % k), "dsk": os.path.join(d, "o%d.dsk" % k)}
-            pre = None
             if k % 3 == 0:
                 open(outs["bin"], "wb").write(b"OLD")
-                pre = b"OLD"
             cmd = [sys.executable, os.path.join(asmio.REPO, "assembler.py"), src, "--to_bin", outs["bin"], "--to_cas", outs["cas"], "--to_dsk", outs["dsk"], "--name", "P"]
             if k % 3 == 0:
                 cmd.append("--append")
-            try:
-                p = subprocess.run(cmd, stdout=subprocess.PIPE, stderr=subprocess.PIPE, timeout=20, cwd=d)
-                rc, err, out = p.returncode, p.stderr.decode("utf-8", "replace"), p.stdout.decode("utf-8", "replace")
-            except subprocess.TimeoutExpired:
-                rc, err, out = -9, "TIMEOUT", ""
+            cmds.append(cmd)
+        with ThreadPoolExecutor(max_workers=12) as ex:
+            results = list(ex.map(run_cmd, cmds))
+        for k, lines in enumerate(programs):
+            src = os.path.join(d, "p%d.asm" % k)
+            outs = {"bin": os.path.join(d, "o%d.bin" % k), "cas": os.path.join(d, "o%d.cas" % k), "dsk": os.path.join(d, "o%d.dsk" % k)}
+            pre = b"OLD" if k % 3 == 0 else None
+            rc, err, out = results[k]
             rec = asmio.assemble(list(lines))
             n += 1
             created = [o for o in outs.values() if os.path.exists(o) and not (o == outs["bin"] and pre is not None)]
